@@ -1,4 +1,5 @@
-import NumbatModel.Lemmas.VMCorrect
+import NumbatModel.Lemmas.VMCases1
+import NumbatModel.Lemmas.VMCalls3
 /-!
 Helper lemmas for C09, part 9: assembling the cases.
 -/
@@ -176,13 +177,23 @@ theorem exprOK_succ {S : Sem ν} {P : Prog ν} {T : Table ν} {G : List (List Na
             exact r1.fails (Fails.step (step_factorial_err (S := S) p1 hfit.1 (s := m.stack) (x := x) rfl hf))
           · cases he
         | _ => simp at he
-  | bin op l r => sorry
-  | call fn args => sorry
-  | callc callee args => sorry
-  | cond c t e => sorry
-  | str parts => sorry
-  | mk info fields => sorry
-  | fld e field info => sorry
-  | list es => sorry
+  | bin op l r => exact case_bin ih op l r
+  | call fn args => exact case_call hP ih fn args
+  | callc callee args => exact case_callc hP ih callee args
+  | cond c t e => exact case_cond ih c t e
+  | str parts => exact case_str ih parts
+  | mk info fields => exact case_mk hP ih info fields
+  | fld e field info => exact case_fld ih e field info
+  | list es => exact case_list ih es
+
+theorem exprOK_zero (S : Sem ν) (P : Prog ν) (T : Table ν) (G : List (List Name)) : ExprOK S P T G 0 := by
+  intro e ρ cs cs' frag m f fs _ _ _ _ _ _ _ _ _
+  exact ⟨fun v hv => by simp [eval] at hv, fun err he => by simp [eval] at he⟩
+
+/-- compiler correctness for expressions, every fuel -/
+theorem exprOK_all {S : Sem ν} {P : Prog ν} {T : Table ν} {G : List (List Name)} (hP : ProgOK P T G) :
+    ∀ n, ExprOK S P T G n
+  | 0 => exprOK_zero S P T G
+  | n + 1 => exprOK_succ hP (exprOK_all hP n)
 
 end NumbatModel.VM
